@@ -117,8 +117,11 @@ prop(
     "C09",
     level="proof",
     design_ref="DESIGN.md section 3, C09",
-    groups=[(["./pipeline"], r"^(\(\*RetriableBatcher\)\.Out|\(\*Batch\)\.reset|\(\*Router\)\.(Stop|Fail|IsDeadQueueAvailable))$")],
-    canaries=[("./pipeline", "replay/C09/zz_replay_c09_test.go", "TestVerifReplayC09")],
+    groups=[(["./pipeline"], r"^(\(\*RetriableBatcher\)\.Out|\(\*Batch\)\.reset|\(\*Router\)\.(Stop|Fail|IsDeadQueueAvailable|Start))$"),
+            (["./fd"], r"^\(\*FileD\)\.getStaticInfo$")],
+    canaries=[("./pipeline", "replay/C09/zz_replay_c09_test.go", "TestVerifReplayC09"),
+              ("./pipeline", "replay/C09/zz_dq_self_feedback_test.go", "TestVerifDeadQueueSelfFeedback"),
+              ("./fd", "replay/C09/zz_dq_config_shared_test.go", "TestVerifDeadQueueConfigSharedAcrossPipelines")],
     claim=(
         "RetriableBatcher.Out, for every success/failure sequence of the send function (outFn returns any error or nil on every call; loop invariant, no bound) and every retry count including 0 and negative: "
         "it returns normally only right after a send that returned nil; it gives up at most once, only with a non-negative retry count and only after strictly more retries than configured; "
@@ -326,8 +329,9 @@ prop(
             (["./plugin/output/elasticsearch"], r"^\(\*Plugin\)\.(sendSplit|appendIndexName|appendEvent|out|out\$1|Start|Start\$1)$"),
             (["./plugin/output/http", "./pipeline"], r"^(\(\*Plugin\)\.(sendSplit|out|out\$1)|\(\*(Raw|JSON)Encoder\)\.Encode)$"),
             (["./plugin/output/kafka", "./pipeline"], r"^\(\*Plugin\)\.(out|out\$1)$"),
-            (["./plugin/output/gelf"], r"^\(\*Plugin\)\.formatExtraField$")],
-    canaries=[("./plugin/output/http", "replay/C19/zz_raw_encoder_test.go", "TestVerifRawEncoderKeepsEarlierEvents")],
+            (["./plugin/output/gelf"], r"^\(\*Plugin\)\.(formatExtraField|makeTimestampField)$")],
+    canaries=[("./plugin/output/http", "replay/C19/zz_raw_encoder_test.go", "TestVerifRawEncoderKeepsEarlierEvents"),
+              ("./plugin/output/gelf", "replay/C19/zz_gelf_inf_timestamp_test.go", "TestVerifGelfTimestampIsJSONNumber")],
     known_canaries=[("./plugin/output/elasticsearch", "replay/C19/zz_replay_c19_test.go", "TestVerifReplayC19IndexName")],
     claim=(
         "Proved: Batch.ForEach calls the callback for exactly the non-parent events, in index order (per-iteration obligation); Elasticsearch sendSplit and the http output's sendSplit (split_batch), for every pattern of failing / 413 / successful requests (DoTimeout is an arbitrary environment), "
@@ -385,14 +389,15 @@ prop(
             (["./cfg"], r"^VerifyGroupNumbers$"),
             (["./pipeline"], r"^\(\*processor\)\.(processEvent|doActions)$"),
             (["./metric"], r"truncateLabels$"),
-            (["./plugin/action/decode", "./pipeline"], r"^\(\*Plugin\)\.(Do|decodeJson)$")],
+            (["./plugin/action/decode", "./pipeline"], r"^\(\*Plugin\)\.(Do|decodeJson|checkError)$")],
     canaries=[("./plugin/action/mask", "replay/C17/zz_replay_c17_test.go", "TestVerifReplayC17Tail"), ("./plugin/input/k8s", "replay/C13/zz_replay_c13_test.go", "TestVerifReplayC13"),
               ("./pipeline", "replay/C13/zz_timeout_wrong_action_test.go", "TestVerifTimeoutGoesToTheWaitingAction"),
               ("./metric", "replay/C13/zz_label_utf8_test.go", "TestVerifLabelValuesFromEventContent"),
               ("./plugin/action/convert_utf8_bytes", "replay/C13/zz_convert_utf8_alias_test.go", "TestVerifConvertedFieldsKeepTheirValues"),
               ("./plugin/input/k8s", "replay/C13/zz_k8s_cutoff_escape_test.go", "TestVerifK8sCutOffKeepsEscapesWhole"),
               ("./plugin/action/decode", "replay/C13/zz_decode_prefix_test.go", "TestVerifDecodePrefixSurvivesLaterActions"),
-              ("./cfg/substitution", "replay/C13/trimto_empty_cutset_test.go", "TestVerifTrimToEmptyCutset")],
+              ("./cfg/substitution", "replay/C13/trimto_empty_cutset_test.go", "TestVerifTrimToEmptyCutset"),
+              ("./plugin/action/decode", "replay/C13/zz_decode_check_error_test.go", "TestVerifDecodeCheckErrorWithLogging")],
     known_canaries=[("./plugin/action/mask", "replay/C17/zz_replay_c17_test.go", "TestVerifReplayC17Order")],
     claim=(
         "No-panic of the index / slice arithmetic on event bytes in the action code brought under contract so far: mask.maskValue and maskSection (every index into the submatch vector and every slice of the value, for all values and all validated group lists), "
@@ -441,7 +446,8 @@ prop(
     level="other",
     design_ref="DESIGN.md section 3, C03",
     groups=[(["./plugin/input/file", "./pipeline"], r"^(\(\*Plugin\)\.PassEvent|\(\*jobProvider\)\.(commit|truncateJob|initJobOffset|addJob)|\(\*worker\)\.(processEOF|work))$")],
-    canaries=[("./plugin/input/file", "replay/C03/zz_truncation_tail_test.go", "TestVerifTruncationDropsStaleTail")],
+    canaries=[("./plugin/input/file", "replay/C03/zz_truncation_tail_test.go", "TestVerifTruncationDropsStaleTail"),
+              ("./plugin/input/file", "replay/C03/zz_rejected_last_line_truncation_test.go", "TestVerifTruncationAfterRejectedLastLine")],
     claim=(
         "The sequential facts the kill-and-restart argument rests on, each a proved contract: on resume an event is dropped as already delivered only if its stream has a saved offset and the event's offset is not beyond it (PassEvent); "
         "commit stores the event's own offset, under the job lock, strictly larger than the stream's previous offset, and only for regular / split-parent events newer than the last truncation; "
